@@ -67,6 +67,7 @@ type c05Ev struct {
 	nPub  int // number of own messages published (handed to handleMsg by receiveRoutine)
 	fedH  uint64 // transactions scheduled for heights <= fedH have been submitted to the pool
 	vtyp  kproto.SignedMsgType
+	nRot  int // number of WAL group rotations so far
 }
 
 // c05Pub is one own message that was handed to handleMsg (= visible to the reactor, gossiped).
@@ -88,6 +89,7 @@ type c05Rec struct {
 	wSynced int64
 	curH    func() uint64
 	fedH    uint64
+	rot     []int64 // logical offsets at which the WAL group was rotated (file boundaries)
 }
 
 func (rc *c05Rec) add(ev c05Ev) {
@@ -100,6 +102,7 @@ func (rc *c05Rec) add(ev c05Ev) {
 	}
 	ev.nPub = len(rc.pub)
 	ev.fedH = rc.fedH
+	ev.nRot = len(rc.rot)
 	rc.evs = append(rc.evs, ev)
 }
 
@@ -236,11 +239,79 @@ type c05WAL struct {
 	rc   *c05Rec
 	cs   *ConsensusState
 	path string
+	base int64        // bytes in the rotated files wal.000 … (the log is the concatenation of all files)
+	plan []c05RotPoint // rotate the group right after these records (reference runs of the rotation family)
 }
 
+// c05RotPoint: rotate right after the WAL record of this kind / height / vote type has been
+// written - what autofile's checkHeadSizeLimit (own goroutine, any moment between two writes)
+// does when the head has reached the size limit.
+type c05RotPoint struct {
+	kind string
+	h    uint64
+	vtyp kproto.SignedMsgType
+	done bool
+}
+
+func (p c05RotPoint) String() string {
+	s := fmt.Sprintf("%s%d", p.kind, p.h)
+	if p.kind == "walOwnVote" {
+		if p.vtyp == kproto.PrecommitType {
+			s = fmt.Sprintf("precommit%d", p.h)
+		} else {
+			s = fmt.Sprintf("prevote%d", p.h)
+		}
+	}
+	return s
+}
+
+// logicalEnd: offset in the concatenation of all files of the group. The head is looked at with
+// os.Stat (Head.Size() would create an absent head file).
 func (w *c05WAL) logicalEnd() int64 {
-	sz, _ := w.BaseWAL.group.Head.Size()
-	return sz + int64(w.BaseWAL.group.Buffered())
+	var sz int64
+	if fi, err := os.Stat(w.path); err == nil {
+		sz = fi.Size()
+	}
+	return w.base + sz + int64(w.BaseWAL.group.Buffered())
+}
+
+// rotate = Group.RotateFile(): flush, fsync, close the head, rename it to wal.NNN; no new head
+// is created until the next write reaches the file.
+func (w *c05WAL) rotate() {
+	end := w.logicalEnd()
+	if end == w.base {
+		return // empty head: RotateFile would fail on the rename
+	}
+	w.BaseWAL.group.RotateFile()
+	w.base = end
+	if w.rc != nil && !w.rc.off {
+		w.rc.wEnd, w.rc.wSynced = end, end
+		w.rc.rot = append(w.rc.rot, end)
+		w.rc.add(c05Ev{kind: "walRotate", sync: true})
+	}
+}
+
+// c05WalFiles: the rotated files of a group (in order) and the head path.
+func c05WalFiles(head string) []string {
+	var out []string
+	for i := 0; ; i++ {
+		p := fmt.Sprintf("%v.%03d", head, i)
+		if _, err := os.Stat(p); err != nil {
+			break
+		}
+		out = append(out, p)
+	}
+	return out
+}
+
+// c05ReadWal: the whole log = concatenation of the rotated files and the head.
+func c05ReadWal(head string) []byte {
+	var all []byte
+	for _, p := range append(c05WalFiles(head), head) {
+		b, _ := ioutil.ReadFile(p)
+		all = append(all, b...)
+	}
+	return all
 }
 
 func c05WalKind(msg WALMessage) (string, uint64, *c05Pub) {
@@ -299,6 +370,13 @@ func (w *c05WAL) note(msg WALMessage, sync bool) {
 		ev.vtyp = pub.typ
 	}
 	w.rc.add(ev)
+	for i := range w.plan {
+		pt := &w.plan[i]
+		if !pt.done && pt.kind == kind && pt.h == h && (kind != "walOwnVote" || pt.vtyp == ev.vtyp) {
+			pt.done = true
+			w.rotate()
+		}
+	}
 }
 
 func (w *c05WAL) Write(msg WALMessage) error {
@@ -415,6 +493,11 @@ func (n *c05Node) openWAL() error {
 	}
 	bw := wal.(*BaseWAL)
 	n.wal = &c05WAL{BaseWAL: bw, rc: n.db.rc, cs: n.cs, path: n.cs.config.WalFile()}
+	for _, p := range c05WalFiles(n.wal.path) {
+		if fi, err := os.Stat(p); err == nil {
+			n.wal.base += fi.Size()
+		}
+	}
 	if n.db.rc != nil && !n.db.rc.off {
 		// the #ENDHEIGHT 0 record written by BaseWAL.OnStart into an empty file
 		end := n.wal.logicalEnd()
@@ -481,6 +564,7 @@ type c05Scenario struct {
 	txs     map[uint64][]*types.Transaction
 	g       *genesis.Genesis
 	key     *ecdsa.PrivateKey
+	rotate  []c05RotPoint // rotation family: where the WAL group is rotated
 }
 
 func c05FutureGenesis(keys []*ecdsa.PrivateKey, stake []int64) *genesis.Genesis {
@@ -536,8 +620,13 @@ func (n *c05Node) feed(sc *c05Scenario, h uint64) {
 			fmt.Printf("feed h=%d tx %d: %v\n", h, i, e)
 		}
 	}
-	// the pool promotes asynchronously: wait until the accepted transactions are pending
-	for i := 0; i < 4000 && n.txpool.PendingSize() < accepted; i++ {
+	// the pool promotes asynchronously: wait until the accepted transactions are pending - or
+	// queued, when an earlier nonce is missing (pool-lost policy): those never become pending
+	for i := 0; i < 4000; i++ {
+		pend, queued := n.txpool.Stats()
+		if pend+queued >= accepted {
+			break
+		}
 		time.Sleep(500 * time.Microsecond)
 	}
 }
@@ -604,6 +693,7 @@ func c05Reference(t *testing.T, sc *c05Scenario) *c05Ref {
 	}
 	ref := &c05Ref{sc: sc, rc: rc, blocks: map[uint64]string{}}
 	ref.genEnd = len(rc.evs)
+	n.wal.plan = append([]c05RotPoint{}, sc.rotate...)
 	n.cs.scheduleRound0(&n.cs.RoundState)
 	n.run(sc, uint64(sc.heights), 5000)
 	// finish the step that follows the last enumerated commit (its newStep record)
@@ -617,9 +707,12 @@ func c05Reference(t *testing.T, sc *c05Scenario) *c05Ref {
 		ref.blocks[h] = vfCommitted2(n.bo, h)
 	}
 	n.stop()
-	ref.wal, err = ioutil.ReadFile(n.cs.config.WalFile())
-	if err != nil {
-		t.Fatal(err)
+	ref.wal = c05ReadWal(n.cs.config.WalFile())
+	if len(rc.rot) != len(sc.rotate) {
+		t.Fatalf("scenario %s: %d of %d planned WAL rotations happened", sc.name, len(rc.rot), len(sc.rotate))
+	}
+	if int64(len(ref.wal)) < rc.wSynced {
+		t.Fatalf("scenario %s: WAL files hold %d bytes, %d were synced", sc.name, len(ref.wal), rc.wSynced)
 	}
 	if vfEnvInt("VERIF_DEBUG", 0) > 0 {
 		fmt.Printf("scenario %s flush=%v: %d events (%d enumerated), wal %d bytes\n", sc.name, sc.flush, len(rc.evs), ref.lastEv, len(ref.wal))
@@ -640,7 +733,9 @@ func vfCommitted2(bo *blockchain.BlockOperations, h uint64) string {
 
 type c05Image struct {
 	ops      [][]c05Op // database writes in order
-	wal      []byte
+	wal      []byte    // the log (all files concatenated)
+	rot      []int64   // file boundaries: wal[0:rot[0]] = wal.000, …, the rest is the head
+	rotated  bool      // image of the rotation family (class carries +wal-rotated…)
 	pub      []c05Pub          // own messages published before the crash
 	commit   map[uint64]string // blocks committed (saved) before the crash
 	top      uint64            // highest committed height before the crash
@@ -691,7 +786,7 @@ func c05Milestone(ev c05Ev) string {
 		return "prevote"
 	case "blockBatch", "walEnd", "appBatch", "trieFlush", "headBatch", "cstateBatch":
 		return ev.kind
-	case "walStep", "walTimeout", "walFlush":
+	case "walStep", "walTimeout", "walFlush", "walRotate":
 		return ""
 	}
 	if ev.db {
@@ -759,8 +854,18 @@ func c05Recover(t *testing.T, sc *c05Scenario, img *c05Image, refeed bool) *c05R
 	walFile := filepath.Join(root, "cs.wal", "wal")
 	os.MkdirAll(filepath.Dir(walFile), 0700)
 	if img.wal != nil {
-		if err := ioutil.WriteFile(walFile, img.wal, 0600); err != nil {
-			t.Fatal(err)
+		from := int64(0)
+		for i, r := range img.rot {
+			if err := ioutil.WriteFile(fmt.Sprintf("%v.%03d", walFile, i), img.wal[from:r], 0600); err != nil {
+				t.Fatal(err)
+			}
+			from = r
+		}
+		// after a rotation no head exists until a later record has reached the file
+		if len(img.rot) == 0 || from < int64(len(img.wal)) {
+			if err := ioutil.WriteFile(walFile, img.wal[from:], 0600); err != nil {
+				t.Fatal(err)
+			}
 		}
 	}
 	res.walPath = walFile
@@ -950,7 +1055,9 @@ func c05Check(t *testing.T, o *vfOut, vs *c05Viols, ref *c05Ref, img *c05Image, 
 				// second-crash images: the proposal/twin clauses are not applied (the block the
 				// FIRST recovery proposed was observed to depend on tx-pool timing on a loaded
 				// machine; unresolved, see notes/C05.md) - votes and stores are checked
-				if !img.second && (p.blockKey != sg.blockKey || p.polRound != sg.polRound) {
+				// rotation family: F7 (second proposal under the pool-lost policy) is a property of
+				// the policy, examined by the single-file family; the vote clause stays on
+				if !img.second && !img.rotated && (p.blockKey != sg.blockKey || p.polRound != sg.polRound) {
 					vs.add("c05/second-proposal"+cause+":"+class, fmt.Sprintf("%s height=%d round=%d published=%.12s re-signed=%.12s", desc(), sg.h, sg.r, p.blockKey, sg.blockKey))
 				}
 			} else if p.typ == sg.typ && p.blockKey != sg.blockKey {
@@ -995,16 +1102,13 @@ func c05SecondCrash(t *testing.T, o *vfOut, vs *c05Viols, ref *c05Ref, img *c05I
 		blocks[h] = vfCommitted2(n.bo, h)
 	}
 	n.stop()
-	wal, err := ioutil.ReadFile(res.walPath)
-	if err != nil {
-		return
-	}
+	wal := c05ReadWal(res.walPath)
 	limit := len(evs)
 	if limit > 60 {
 		limit = 60
 	}
 	for j := 1; j <= limit; j++ {
-		im2 := &c05Image{second: true, commit: map[uint64]string{}, top: img.top, done: img.done, headMark: img.headMark, fedH: evs[j-1].fedH}
+		im2 := &c05Image{second: true, rot: img.rot, commit: map[uint64]string{}, top: img.top, done: img.done, headMark: img.headMark, fedH: evs[j-1].fedH}
 		for h, b := range img.commit {
 			im2.commit[h] = b
 		}
@@ -1171,13 +1275,27 @@ func c05MkImage(ref *c05Ref, k int, walLen int64, variant string) *c05Image {
 	if k > 0 {
 		img.pub = append([]c05Pub{}, ref.rc.pub[:evs[k-1].nPub]...)
 		img.fedH = evs[k-1].fedH
+		img.rot = append([]int64{}, ref.rc.rot[:evs[k-1].nRot]...)
 	}
 	img.class = c05Class(evs, k, ref.genEnd, ref.sc.flush)
 	img.first = k < ref.genEnd
+	if n := len(img.rot); n > 0 {
+		// the group was rotated before the crash: own classes, so that no matcher written for
+		// the single-file log applies
+		img.rotated = true
+		if walLen <= img.rot[n-1] {
+			img.class += "+wal-rotated-empty-head" // nothing reached the new head: absent at restart
+		} else {
+			img.class += "+wal-rotated"
+		}
+	}
 	if variant != "synced" {
 		img.class += "+wal-" + variant
 	}
 	img.desc = fmt.Sprintf("prefix=%d/%d(%s) wal=%s@%d", k, len(evs), img.class, variant, walLen)
+	if img.rotated {
+		img.desc += fmt.Sprintf(" files-end-at=%v", img.rot)
+	}
 	img.tokens = c05Tokens(evs, k, ref.genEnd, walLen)
 	return img
 }
@@ -1197,7 +1315,11 @@ func TestVerifC05(t *testing.T) {
 	keys := vfKeys(r, 1)
 	g := c05FutureGenesis(keys, []int64{15000000})
 	only := vfEnvInt("VERIF_ONLY", -1)
+	fam := os.Getenv("VERIF_FAMILY") // dev switch: "base" / "rot" run one family only
 	for _, flush := range []bool{true, false} {
+		if fam == "rot" {
+			break
+		}
 		sc := &c05Scenario{name: "single", flush: flush, heights: 4, extra: 2, g: g, key: keys[0]}
 		sc.txs = c05MkTxs(g, keys[0], map[uint64]int{2: 2, 4: 1, 5: 1})
 		ref := c05Reference(t, sc)
@@ -1247,5 +1369,119 @@ func TestVerifC05(t *testing.T) {
 			}
 		}
 	}
+	// ---- WAL rotation family (flush mode): the group is rotated at chosen moments; crash points
+	// after the rotation with nothing / a few records in the new head.
+	rotPlans := [][]c05RotPoint{
+		{{kind: "walEnd", h: 1}},  // between heights, right after #ENDHEIGHT 1
+		{{kind: "walEnd", h: 3}},  // right after #ENDHEIGHT 3
+		{{kind: "walTimeout", h: 3}}, // between heights, after the first records of height 3
+		{{kind: "walOwnVote", h: 2, vtyp: kproto.PrevoteType}},   // mid-height, after the own prevote
+		{{kind: "walOwnVote", h: 2, vtyp: kproto.PrecommitType}}, // after the own precommit
+		{{kind: "walOwnVote", h: 4, vtyp: kproto.PrevoteType}},
+		{{kind: "walOwnProposal", h: 3}}, // splits the records of height 3 across files
+		{{kind: "walEnd", h: 1}, {kind: "walOwnVote", h: 2, vtyp: kproto.PrevoteType}},          // wal.000, wal.001
+		{{kind: "walOwnProposal", h: 2}, {kind: "walOwnVote", h: 4, vtyp: kproto.PrecommitType}}, // two rotations, both mid-height
+	}
+	for si, plan := range rotPlans {
+		if fam == "base" {
+			break
+		}
+		var names []string
+		for _, pt := range plan {
+			names = append(names, pt.String())
+		}
+		sc := &c05Scenario{name: "rotate-after-" + strings.Join(names, "+"), flush: true, heights: 4, extra: 2, g: g, key: keys[0], rotate: plan}
+		sc.txs = c05MkTxs(g, keys[0], map[uint64]int{2: 2, 4: 1, 5: 1})
+		ref := c05Reference(t, sc)
+		evs := ref.rc.evs
+		for ri, e := range evs {
+			if e.kind != "walRotate" {
+				continue
+			}
+			taken := 0
+			for k := ri + 1; k <= ref.lastEv; k++ {
+				if evs[k-1].nRot != e.nRot {
+					break // the next rotation has its own window
+				}
+				// crash points inside the tail of a commit (after #ENDHEIGHT h, before the
+				// consensus state of h) are the F14/F19 phases whatever the files look like
+				if c05InCommitTail(evs, k) {
+					o.Stat("rotation.skipped-commit-tail")
+					continue
+				}
+				taken++
+				if !vfThorough() && taken > 9 {
+					break
+				}
+				if uint64(si*5+k)%shards != shard || (only >= 0 && k != only) {
+					continue
+				}
+				synced, end := evs[k-1].wSynced, evs[k-1].wEnd
+				type variant struct {
+					name string
+					len  int64
+				}
+				vars := []variant{{"synced", synced}}
+				// a torn tail whose catch-up commits the height is F34 whatever the files look like
+				tornOK := !c05CatchupCommits(evs, k)
+				if end != synced {
+					vars = append(vars, variant{"unsynced-tail-kept", end})
+					if tornOK {
+						vars = append(vars, variant{"torn", synced + 1 + int64(r.Intn(int(end-synced-1)))})
+					}
+				} else if tornOK && k < len(evs) && !evs[k].db && evs[k].wEnd > end+1 && (vfThorough() || k%2 == 0) {
+					vars = append(vars, variant{"torn", end + 1 + int64(r.Intn(int(evs[k].wEnd-end-1)))})
+				}
+				for _, v := range vars {
+					img := c05MkImage(ref, k, v.len, v.name)
+					c05Check(t, o, vs, ref, img, true, v.name != "torn")
+					o.Case(fmt.Sprintf("%s/%d/%s/same", sc.name, k, v.name), true)
+					o.Stat("rotation." + img.class[strings.Index(img.class, "+wal-rotated"):])
+					lost := false
+					for h := uint64(1); h <= img.fedH; h++ {
+						if len(sc.txs[h]) > 0 {
+							lost = true
+						}
+					}
+					if lost {
+						c05Check(t, o, vs, ref, img, false, false)
+						o.Case(fmt.Sprintf("%s/%d/%s/lost", sc.name, k, v.name), true)
+					}
+				}
+			}
+		}
+	}
 	_ = crypto.Keccak256
+}
+
+// c05InCommitTail: prefix k ends after `#ENDHEIGHT h` and before the consensus state of h is saved.
+func c05InCommitTail(evs []c05Ev, k int) bool {
+	var ended, done uint64
+	for i := 0; i < k; i++ {
+		switch {
+		case !evs[i].db && evs[i].kind == "walEnd" && evs[i].h > ended:
+			ended = evs[i].h
+		case evs[i].db && evs[i].kind == "cstateBatch" && evs[i].h > done:
+			done = evs[i].h
+		}
+	}
+	return ended > done
+}
+
+// c05CatchupCommits: the own precommit of the height in flight is logged but its end marker is
+// not: the WAL catch-up will commit the height (the situation of F34 when the tail is torn).
+func c05CatchupCommits(evs []c05Ev, k int) bool {
+	var ended, pre uint64
+	for i := 0; i < k; i++ {
+		if evs[i].db {
+			continue
+		}
+		switch {
+		case evs[i].kind == "walEnd" && evs[i].h > ended:
+			ended = evs[i].h
+		case evs[i].kind == "walOwnVote" && evs[i].vtyp == kproto.PrecommitType && evs[i].h > pre:
+			pre = evs[i].h
+		}
+	}
+	return pre > ended
 }
